@@ -123,14 +123,15 @@ def main():
     out_lines = []
     # 1. regression tier: committed shrunk failures, replayed without rapidcheck
     nreg = 0
-    for f in sorted(glob.glob(f"{V}/regress/{pid}/*.case")):
+    for f in sorted(glob.glob(f"{V}/regress/{pid}/*.case") + glob.glob(f"{V}/regress/{pid}/*.cases")):
         nreg += 1
-        r = subprocess.run([binp, "--replay", f], env=env, stdout=subprocess.PIPE, stderr=subprocess.PIPE, text=True)
+        # (*.cases = a sequence of cases for one executor process: failures that need state surviving nng_fini / nng_init)
+        r = subprocess.run([binp, "--replay-history" if f.endswith(".cases") else "--replay", f], env=env, stdout=subprocess.PIPE, stderr=subprocess.PIPE, text=True)
         for ln in r.stdout.splitlines():
             if ln.startswith("KNOWN-FINDING"):
                 known_lines.append(ln)
         if r.returncode == 1:
-            msg = " ".join(ln for ln in r.stdout.splitlines() if ln.startswith("REPLAY-FAIL"))
+            msg = " ".join(ln for ln in r.stdout.splitlines() if ln.startswith(("REPLAY-FAIL", "HISTORY-FAIL")))
             violations.append(dict(sig="regress", replay=f, msg=msg[:400]))
 
     # 2. generated tier
